@@ -426,6 +426,10 @@ def main():
         problems.append('jobs that never reached an obligation: %s' % vacuous[:5])
     if twin_bad:
         problems.append('negated-obligation twins not detected: %s' % twin_bad[:5])
+    nfail_raw = sum(len(r['failures']) for r in results)
+    if agg['checks'] - agg['proved'] != nfail_raw:
+        problems.append('obligation accounting: %d obligations reached, %d proved, %d failed - some path ended inside an obligation'
+                        % (agg['checks'], agg['proved'], nfail_raw))
     if degraded:
         notes.append('%d path(s) could not be followed symbolically and were checked concretely instead (%d ok): %s'
                      % (len(degraded), ndeg_ok, cov['degraded_reasons'][:3]))
